@@ -4,9 +4,22 @@ lean/IblVerif/Generated/Constants.lean.  Theorems whose truth depends on these n
 (`samples_overlap % 12 = 0`, `2*SAMPLES_TAPER < NBATCH`, ADC table facts, grid pitches ...) import the
 generated file, so they are re-checked against what the source says now on every run.
 
-If a constant cannot be located the translator raises: the tie is broken (DESIGN §8).
+Each constant is extracted on its own, in up to three stages:
+
+  1. syntactic: locate the assignment / default / factor in the AST and FOLD it (literals, arithmetic on literals,
+     names bound to module-level constants or to earlier `x = ...` / `self.x = ...` assignments of the same
+     function, `int(...)`, `float(...)`, `dict(...)`), so that `576`, `48 * 12`, `OVERLAP` with
+     `OVERLAP = 576` at module level, `int(576)` all give 576;
+  2. run-time fallback where one exists (module attribute, `inspect.signature` default, or — for the ADC table —
+     the behaviour of `adc_shifts` itself: channels per ADC and cycles are read off the returned arrays);
+  3. if both fail the constant is reported as NOT RE-EXTRACTED: the value of the previous run is kept in the
+     generated file and the name is returned in `stale`.  The framework records this in the evidence of every
+     property that uses the constant; the tie for that constant is then the correspondence run alone (the model
+     computes with the kept value, the implementation with whatever the source now says, and they are compared on
+     every case).  A restructured source is not by itself a violation (DESIGN §8, §11.7).
 """
 import ast
+import re
 from fractions import Fraction
 from pathlib import Path
 
@@ -26,23 +39,84 @@ def _find_func(tree, name, cls=None):
     raise KeyError(f'function {cls + "." if cls else ""}{name} not found')
 
 
-def _safe_eval(expr):
-    """literal_eval that also accepts dict(k=v) calls"""
-    for n in ast.walk(expr):
-        if isinstance(n, ast.Call) and not (isinstance(n.func, ast.Name) and n.func.id == 'dict'):
-            raise ValueError('non-literal expression: ' + ast.unparse(expr))
-        if isinstance(n, (ast.Attribute, ast.Subscript, ast.Lambda)):
-            raise ValueError('non-literal expression: ' + ast.unparse(expr))
-    return eval(compile(ast.Expression(expr), '<const>', 'eval'), {'__builtins__': {}, 'dict': dict})
+# ------------------------------------------------------------------------------------------------
+# constant folding
+# ------------------------------------------------------------------------------------------------
+class NotConstant(Exception):
+    pass
 
 
-def _module_const(tree, name):
+def _module_env(tree):
+    """name -> value expression for simple module-level assignments"""
+    env = {}
     for node in tree.body:
         if isinstance(node, ast.Assign):
             for t in node.targets:
-                if isinstance(t, ast.Name) and t.id == name:
-                    return _safe_eval(node.value)
-    raise KeyError(f'module constant {name} not found')
+                if isinstance(t, ast.Name):
+                    env[t.id] = node.value
+        elif isinstance(node, ast.AnnAssign) and isinstance(node.target, ast.Name) and node.value is not None:
+            env[node.target.id] = node.value
+    return env
+
+
+def _func_env(func):
+    """name / self-attribute -> value expression for simple assignments in a function body (first assignment wins)"""
+    env = {}
+    if func is None:
+        return env
+    for node in ast.walk(func):
+        if isinstance(node, ast.Assign):
+            for t in node.targets:
+                if isinstance(t, ast.Name):
+                    env.setdefault(t.id, node.value)
+                elif isinstance(t, ast.Attribute) and isinstance(t.value, ast.Name) and t.value.id == 'self':
+                    env.setdefault('self.' + t.attr, node.value)
+    return env
+
+
+_BIN = {ast.Add: lambda a, b: a + b, ast.Sub: lambda a, b: a - b, ast.Mult: lambda a, b: a * b,
+        ast.Div: lambda a, b: a / b, ast.FloorDiv: lambda a, b: a // b, ast.Mod: lambda a, b: a % b,
+        ast.Pow: lambda a, b: a ** b}
+
+
+def fold(expr, menv=None, fenv=None, depth=0):
+    """value of a constant expression; raises NotConstant otherwise"""
+    menv = menv or {}
+    fenv = fenv or {}
+    if depth > 20:
+        raise NotConstant('recursion')
+    rec = lambda e: fold(e, menv, fenv, depth + 1)   # noqa
+    if isinstance(expr, ast.Constant):
+        if isinstance(expr.value, (int, float, str)) and not isinstance(expr.value, bool):
+            return expr.value
+        raise NotConstant(ast.unparse(expr))
+    if isinstance(expr, ast.UnaryOp) and isinstance(expr.op, (ast.USub, ast.UAdd)):
+        v = rec(expr.operand)
+        return -v if isinstance(expr.op, ast.USub) else v
+    if isinstance(expr, ast.BinOp) and type(expr.op) in _BIN:
+        return _BIN[type(expr.op)](rec(expr.left), rec(expr.right))
+    if isinstance(expr, ast.Name):
+        if expr.id in fenv:
+            return rec(fenv[expr.id])
+        if expr.id in menv:
+            return rec(menv[expr.id])
+        raise NotConstant('unbound name ' + expr.id)
+    if isinstance(expr, ast.Attribute) and isinstance(expr.value, ast.Name) and expr.value.id == 'self':
+        k = 'self.' + expr.attr
+        if k in fenv:
+            return rec(fenv[k])
+        raise NotConstant('unbound ' + k)
+    if isinstance(expr, ast.Call) and isinstance(expr.func, ast.Name) and not expr.keywords and len(expr.args) == 1 \
+            and expr.func.id in ('int', 'float'):
+        v = rec(expr.args[0])
+        return int(v) if expr.func.id == 'int' else float(v)
+    if isinstance(expr, ast.Call) and isinstance(expr.func, ast.Name) and expr.func.id == 'dict' and not expr.args:
+        return {k.arg: rec(k.value) for k in expr.keywords}
+    if isinstance(expr, ast.Dict):
+        return {rec(k): rec(v) for k, v in zip(expr.keys, expr.values)}
+    if isinstance(expr, (ast.Tuple, ast.List)):
+        return [rec(e) for e in expr.elts]
+    raise NotConstant(ast.unparse(expr))
 
 
 def _assigned(func, target):
@@ -53,122 +127,226 @@ def _assigned(func, target):
                 if (isinstance(t, ast.Name) and t.id == target) or \
                         (isinstance(t, ast.Attribute) and t.attr == target):
                     return node.value
-                if isinstance(t, ast.Tuple) or isinstance(node.value, ast.Tuple):
-                    pass
     raise KeyError(f'assignment to {target} not found in {func.name}')
 
 
-def _lit(expr):
-    return ast.literal_eval(expr)
-
-
-def _default(func, arg):
+def _default_expr(func, arg):
     args = func.args
-    names = [a.arg for a in args.args]
+    pos = args.posonlyargs + args.args
+    names = [a.arg for a in pos]
     defaults = args.defaults
     off = len(names) - len(defaults)
     if arg in names and names.index(arg) >= off:
-        return ast.literal_eval(defaults[names.index(arg) - off])
+        return defaults[names.index(arg) - off]
     for a, d in zip(args.kwonlyargs, args.kw_defaults):
         if a.arg == arg and d is not None:
-            return ast.literal_eval(d)
+            return d
     raise KeyError(f'default of {arg} not found in {func.name}')
 
 
-def _num_in_compare(func, lhs_contains):
-    """find a numeric literal multiplied in an expression of func whose source contains lhs_contains"""
+def _mentions(node, word):
+    return re.search(r'\b' + re.escape(word) + r'\b', ast.unparse(node)) is not None
+
+
+def _factor_of(func, word, menv, ops=(ast.Mult,)):
+    """constant c in the first `… word … <op> c` or `c <op> … word …` of func (c folds, the other side mentions word)"""
+    fenv = _func_env(func)
     for node in ast.walk(func):
-        if isinstance(node, ast.BinOp) and isinstance(node.op, ast.Mult):
-            src = ast.unparse(node)
-            if lhs_contains in src:
-                for side in (node.left, node.right):
-                    if isinstance(side, ast.Constant) and isinstance(side.value, (int, float)):
-                        return side.value
-    raise KeyError(f'numeric factor near {lhs_contains} not found in {func.name}')
+        if isinstance(node, ast.BinOp) and isinstance(node.op, ops):
+            for a, b in ((node.left, node.right), (node.right, node.left)):
+                if _mentions(a, word):
+                    try:
+                        v = fold(b, menv, fenv)
+                    except NotConstant:
+                        continue
+                    if isinstance(v, (int, float)):
+                        return v
+    raise KeyError(f'numeric factor next to {word} not found in {func.name}')
 
 
-def extract(src):
+def _divisor_of(expr, word, menv, fenv):
+    """k in `… word … / k` (or // k) somewhere inside expr"""
+    for node in ast.walk(expr):
+        if isinstance(node, ast.BinOp) and isinstance(node.op, (ast.Div, ast.FloorDiv)) and _mentions(node.left, word):
+            try:
+                v = fold(node.right, menv, fenv)
+            except NotConstant:
+                continue
+            if v == int(v):
+                return int(v)
+    raise KeyError(f'divisor of {word} not found in {ast.unparse(expr)}')
+
+
+def _or_default(expr, menv, fenv):
+    """c in `x or c` (the fallback of an optional argument); a plain constant is accepted too"""
+    if isinstance(expr, ast.BoolOp) and isinstance(expr.op, ast.Or):
+        return fold(expr.values[-1], menv, fenv)
+    if isinstance(expr, ast.IfExp):
+        for side in (expr.orelse, expr.body):
+            try:
+                return fold(side, menv, fenv)
+            except NotConstant:
+                pass
+    return fold(expr, menv, fenv)
+
+
+# ------------------------------------------------------------------------------------------------
+# run-time fallbacks (the checks import the code in-process anyway; used only when the syntax search fails)
+# ------------------------------------------------------------------------------------------------
+def _import(src, modname):
+    import importlib
+    import sys
+    src = str(src)
+    if src not in sys.path:
+        sys.path.insert(0, src)
+    return importlib.import_module(modname)
+
+
+def _rt_default(src, modname, qual, arg):
+    import inspect
+    obj = _import(src, modname)
+    for part in qual.split('.'):
+        obj = getattr(obj, part)
+    d = inspect.signature(obj).parameters[arg].default
+    if d is inspect.Parameter.empty or isinstance(d, bool) or not isinstance(d, (int, float)):
+        raise KeyError(f'{qual}({arg}) has no numeric default')
+    return d
+
+
+def _rt_adc(src, version):
+    """channels per ADC and cycles per sample, read off adc_shifts' own output"""
+    import numpy as np
+    npx = _import(src, 'neuropixel')
+    shifts, adc = npx.adc_shifts(version=version)
+    shifts, adc = np.asarray(shifts, dtype=float), np.asarray(adc)
+    per = int(np.sum(adc == adc[0]))
+    pos = shifts[shifts > 0]
+    cycles = int(round(1.0 / float(pos.min())))
+    return per, cycles
+
+
+def extract(src, stale_out=None):
+    """returns the table of constants; names that could not be re-extracted are collected in stale_out (dict name->why)"""
     src = Path(src)
-    T = {}
-    npx = _parse(src / 'neuropixel.py')
-    T['NC'] = _module_const(npx, 'NC')
-    grid = _module_const(npx, 'CHANNEL_GRID')
+    T, bad = {}, ({} if stale_out is None else stale_out)
+
+    def put(name, *thunks):
+        why = []
+        for th in thunks:
+            try:
+                v = th()
+                if isinstance(v, bool) or not isinstance(v, (int, float)):
+                    raise TypeError(f'{name}: not a number: {v!r}')
+                if isinstance(v, float) and v == int(v) and name in INTEGRAL:
+                    v = int(v)
+                T[name] = v
+                return
+            except Exception as e:   # noqa
+                why.append(f'{type(e).__name__}: {e}')
+        bad[name] = ' | '.join(why)
+
+    def lazy(f):
+        cache = {}
+
+        def g():
+            if 'v' not in cache:
+                cache['v'] = f()
+            return cache['v']
+        return g
+
+    npx = lazy(lambda: _parse(src / 'neuropixel.py'))
+    npx_env = lazy(lambda: _module_env(npx()))
+    put('NC', lambda: fold(npx_env()['NC'], npx_env()), lambda: _import(src, 'neuropixel').NC)
+    grid = lazy(lambda: fold(npx_env()['CHANNEL_GRID'], npx_env()))
     for k, name in ((1, 'NP1'), (2, 'NP2'), ('NPultra', 'NPU')):
         for f in ('DX', 'X0', 'DY', 'Y0'):
-            T[f'GRID_{name}_{f}'] = int(grid[k][f])
-    T['S2V_AP'] = _module_const(npx, 'S2V_AP')
-    T['S2V_LFP'] = _module_const(npx, 'S2V_LFP')
-    # adc_shifts: branch constants
-    f = _find_func(npx, 'adc_shifts')
-    branches = [n for n in ast.walk(f) if isinstance(n, ast.If)]
-    found = {}
-    for b in branches:
-        cond = ast.unparse(b.test)
-        vals = {}
-        for st in b.body:
-            if isinstance(st, ast.Assign):
-                if len(st.targets) >= 1 and all(isinstance(t, ast.Name) for t in st.targets):
+            put(f'GRID_{name}_{f}', (lambda k=k, f=f: int(grid()[k][f])),
+                (lambda k=k, f=f: int(_import(src, 'neuropixel').CHANNEL_GRID[k][f])))
+    put('S2V_AP', lambda: fold(npx_env()['S2V_AP'], npx_env()), lambda: _import(src, 'neuropixel').S2V_AP)
+    put('S2V_LFP', lambda: fold(npx_env()['S2V_LFP'], npx_env()), lambda: _import(src, 'neuropixel').S2V_LFP)
+
+    # adc_shifts: branch constants (syntactic), else the behaviour of the function itself
+    def adc_branch(which, var):
+        f = _find_func(npx(), 'adc_shifts')
+        for b in (n for n in ast.walk(f) if isinstance(n, ast.If)):
+            cond = ast.unparse(b.test)
+            hit = ('version == 1' in cond) if which == 1 else ('== 2' in cond and 'version == 1' not in cond)
+            if not hit:
+                continue
+            env = {}
+            for st in b.body:
+                if isinstance(st, ast.Assign):
                     for t in st.targets:
-                        vals[t.id] = _lit(st.value)
-        if 'version == 1' in cond:
-            found['v1'] = vals
-        for o in b.orelse:
-            if isinstance(o, ast.If):
-                vals2 = {}
-                for st in o.body:
-                    if isinstance(st, ast.Assign):
-                        for t in st.targets:
-                            if isinstance(t, ast.Name):
-                                vals2[t.id] = _lit(st.value)
-                if '== 2' in ast.unparse(o.test):
-                    found['v2'] = vals2
-    T['ADC_NP1_CHANNELS'] = found['v1']['adc_channels']
-    T['ADC_NP1_CYCLES'] = found['v1']['n_cycles']
-    T['ADC_NP2_CHANNELS'] = found['v2']['adc_channels']
-    T['ADC_NP2_CYCLES'] = found['v2']['n_cycles']
+                        if isinstance(t, ast.Name):
+                            env[t.id] = st.value
+            if var in env:
+                return fold(env[var], npx_env(), env)
+        raise KeyError(f'adc_shifts: branch {which} / {var} not recognised')
+    put('ADC_NP1_CHANNELS', lambda: adc_branch(1, 'adc_channels'), lambda: _rt_adc(src, 1)[0])
+    put('ADC_NP1_CYCLES', lambda: adc_branch(1, 'n_cycles'), lambda: _rt_adc(src, 1)[1])
+    put('ADC_NP2_CHANNELS', lambda: adc_branch(2, 'adc_channels'), lambda: _rt_adc(src, 2)[0])
+    put('ADC_NP2_CYCLES', lambda: adc_branch(2, 'n_cycles'), lambda: _rt_adc(src, 2)[1])
+
     # NP2Converter.init_params
-    f = _find_func(npx, 'init_params', 'NP2Converter')
-    T['CONV_FS_AP'] = _lit(_assigned(f, 'fs_ap'))
-    T['CONV_FS_LF'] = _lit(_assigned(f, 'fs_lf'))
-    T['CONV_OVERLAP'] = _lit(_assigned(f, 'samples_overlap'))
-    tap = ast.unparse(_assigned(f, 'samples_taper'))   # int(self.samples_overlap / 4)
-    import re
-    m = re.search(r'samples_overlap\s*/+\s*(\d+)', tap)
-    if not m:
-        raise KeyError('samples_taper = int(samples_overlap / k) not recognised: ' + tap)
-    T['CONV_TAPER_DIV'] = int(m.group(1))
-    win = ast.unparse(_assigned(f, 'samples_window'))  # nwindow or 2 * self.fs_ap
-    m = re.search(r'(\d+)\s*\*\s*self\.fs_ap', win)
-    if not m:
-        raise KeyError('samples_window default not recognised: ' + win)
-    T['CONV_WINDOW_SECS'] = int(m.group(1))
+    ip = lazy(lambda: _find_func(npx(), 'init_params', 'NP2Converter'))
+    ip_env = lazy(lambda: _func_env(ip()))
+    put('CONV_FS_AP', lambda: fold(_assigned(ip(), 'fs_ap'), npx_env(), ip_env()))
+    put('CONV_FS_LF', lambda: fold(_assigned(ip(), 'fs_lf'), npx_env(), ip_env()))
+    put('CONV_OVERLAP', lambda: fold(_assigned(ip(), 'samples_overlap'), npx_env(), ip_env()))
+    put('CONV_TAPER_DIV', lambda: _divisor_of(_assigned(ip(), 'samples_taper'), 'samples_overlap', npx_env(), ip_env()))
+
+    def window_secs():
+        e = _assigned(ip(), 'samples_window')      # nwindow or 2 * self.fs_ap
+        for node in ast.walk(e):
+            if isinstance(node, ast.BinOp) and isinstance(node.op, ast.Mult):
+                for a, b in ((node.left, node.right), (node.right, node.left)):
+                    if _mentions(a, 'fs_ap'):
+                        try:
+                            return int(fold(b, npx_env(), ip_env()))
+                        except NotConstant:
+                            pass
+        v = _or_default(e, npx_env(), ip_env())     # e.g. `nwindow or 60000`
+        fs = fold(_assigned(ip(), 'fs_ap'), npx_env(), ip_env())
+        if v % fs:
+            raise KeyError('samples_window default is not a whole number of seconds')
+        return int(v // fs)
+    put('CONV_WINDOW_SECS', window_secs)
+
     # voltage.py
-    vol = _parse(src / 'ibldsp' / 'voltage.py')
-    f = _find_func(vol, 'decompress_destripe_cbin')
-    T['DESTRIPE_TAPER'] = _lit(_assigned(f, 'SAMPLES_TAPER'))
-    nb = ast.unparse(_assigned(f, 'NBATCH'))
-    m = re.search(r'nbatch or (\d+)', nb)
-    if not m:
-        raise KeyError('NBATCH default not recognised: ' + nb)
-    T['DESTRIPE_NBATCH'] = int(m.group(1))
-    f = _find_func(vol, 'saturation')
-    T['SAT_FACTOR'] = _num_in_compare(f, 'max_voltage')
-    T['SAT_PROPORTION'] = _default(f, 'proportion')
-    T['SAT_MUTE_WINDOW'] = _default(f, 'mute_window_samples')
-    T['SAT_V_PER_SEC'] = _default(f, 'v_per_sec')
-    f = _find_func(vol, 'interpolate_bad_channels')
-    T['INTERP_P'] = _default(f, 'p')
-    T['INTERP_KRIGING_UM'] = _default(f, 'kriging_distance_um')
+    vol = lazy(lambda: _parse(src / 'ibldsp' / 'voltage.py'))
+    vol_env = lazy(lambda: _module_env(vol()))
+    dd = lazy(lambda: _find_func(vol(), 'decompress_destripe_cbin'))
+    dd_env = lazy(lambda: _func_env(dd()))
+    put('DESTRIPE_TAPER', lambda: fold(_assigned(dd(), 'SAMPLES_TAPER'), vol_env(), dd_env()))
+    put('DESTRIPE_NBATCH', lambda: _or_default(_assigned(dd(), 'NBATCH'), vol_env(), dd_env()))
+    sat = lazy(lambda: _find_func(vol(), 'saturation'))
+    put('SAT_FACTOR', lambda: _factor_of(sat(), 'max_voltage', vol_env()))
+    for cname, arg in (('SAT_PROPORTION', 'proportion'), ('SAT_MUTE_WINDOW', 'mute_window_samples'), ('SAT_V_PER_SEC', 'v_per_sec')):
+        put(cname, (lambda arg=arg: fold(_default_expr(sat(), arg), vol_env())),
+            (lambda arg=arg: _rt_default(src, 'ibldsp.voltage', 'saturation', arg)))
+    ibc = lazy(lambda: _find_func(vol(), 'interpolate_bad_channels'))
+    put('INTERP_P', lambda: fold(_default_expr(ibc(), 'p'), vol_env()),
+        lambda: _rt_default(src, 'ibldsp.voltage', 'interpolate_bad_channels', 'p'))
+    put('INTERP_KRIGING_UM', lambda: fold(_default_expr(ibc(), 'kriging_distance_um'), vol_env()),
+        lambda: _rt_default(src, 'ibldsp.voltage', 'interpolate_bad_channels', 'kriging_distance_um'))
     # spikeglx
-    sg = _parse(src / 'spikeglx.py')
-    T['SAMPLE_SIZE'] = _module_const(sg, 'SAMPLE_SIZE')
+    sg_env = lazy(lambda: _module_env(_parse(src / 'spikeglx.py')))
+    put('SAMPLE_SIZE', lambda: fold(sg_env()['SAMPLE_SIZE'], sg_env()), lambda: _import(src, 'spikeglx').SAMPLE_SIZE)
     # waveform extraction defaults
-    wx = _parse(src / 'ibldsp' / 'waveform_extraction.py')
-    f = _find_func(wx, '_make_wfs_table')
-    T['WF_MAX'] = _default(f, 'max_wf')
-    T['WF_TROUGH_OFFSET'] = _default(f, 'trough_offset')
-    T['WF_LENGTH'] = _default(f, 'spike_length_samples')
+    wx = lazy(lambda: _parse(src / 'ibldsp' / 'waveform_extraction.py'))
+    wx_env = lazy(lambda: _module_env(wx()))
+    mk = lazy(lambda: _find_func(wx(), '_make_wfs_table'))
+    for cname, arg in (('WF_MAX', 'max_wf'), ('WF_TROUGH_OFFSET', 'trough_offset'), ('WF_LENGTH', 'spike_length_samples')):
+        put(cname, (lambda arg=arg: fold(_default_expr(mk(), arg), wx_env())),
+            (lambda arg=arg: _rt_default(src, 'ibldsp.waveform_extraction', '_make_wfs_table', arg)))
     return T
+
+
+# constants that are integers by nature (a float spelling such as 30000.0 or 2e3 is read as the integer)
+INTEGRAL = {'NC', 'ADC_NP1_CHANNELS', 'ADC_NP1_CYCLES', 'ADC_NP2_CHANNELS', 'ADC_NP2_CYCLES', 'CONV_FS_AP', 'CONV_FS_LF',
+            'CONV_OVERLAP', 'CONV_TAPER_DIV', 'CONV_WINDOW_SECS', 'DESTRIPE_TAPER', 'DESTRIPE_NBATCH', 'SAT_MUTE_WINDOW',
+            'INTERP_KRIGING_UM', 'SAMPLE_SIZE', 'WF_MAX', 'WF_TROUGH_OFFSET', 'WF_LENGTH'} | \
+           {f'GRID_{n}_{f}' for n in ('NP1', 'NP2', 'NPU') for f in ('DX', 'X0', 'DY', 'Y0')}
 
 
 def _lean_value(v):
@@ -182,21 +360,58 @@ def _lean_value(v):
     raise TypeError(type(v))
 
 
-def generate(src):
-    T = extract(src)
+_LINE = re.compile(r'^def (\w+) : (Nat × Nat|Nat) := (.*)$')
+
+
+def parse_generated(text):
+    """name -> (type, value text) of a previously generated Constants.lean"""
+    out = {}
+    for line in text.splitlines():
+        m = _LINE.match(line.strip())
+        if m:
+            out[m.group(1)] = (m.group(2), m.group(3))
+    return out
+
+
+def _py_value(ty, val):
+    if ty == 'Nat':
+        return int(val)
+    m = re.match(r'\((\d+), (\d+)\)', val)
+    return int(m.group(1)) / int(m.group(2))
+
+
+def generate(src, previous_text=None):
+    """returns (text, table, stale) — stale: {name: why} for constants kept from the previous generation"""
+    stale = {}
+    T = extract(src, stale)
+    prev = parse_generated(previous_text) if previous_text else {}
+    rows = {}
+    for k, v in T.items():
+        rows[k] = _lean_value(v)
+    lost = {}
+    for k, why in stale.items():
+        if k in prev:
+            rows[k] = prev[k]
+            T[k] = _py_value(*prev[k])
+        else:
+            lost[k] = why
+    if lost:   # no previous value to fall back on: the generated file cannot be produced
+        raise KeyError('constants neither extracted nor previously generated: ' + '; '.join(f'{k}: {w}' for k, w in lost.items()))
     lines = ['/-',
              'GENERATED by harness/extract_consts.py from /repo/src on every run.  Do not edit.',
              'Float literals are given as the exact decimal fraction (numerator, denominator) of the source text.',
              '-/',
              'namespace IblVerif.Generated', '']
-    for k in sorted(T):
-        ty, val = _lean_value(T[k])
+    for k in sorted(rows):
+        ty, val = rows[k]
         lines.append(f'def {k} : {ty} := {val}')
     lines += ['', 'end IblVerif.Generated', '']
-    return '\n'.join(lines), T
+    return '\n'.join(lines), T, stale
 
 
 if __name__ == '__main__':
     import sys
-    text, T = generate(sys.argv[1] if len(sys.argv) > 1 else '/repo/src')
+    text, T, stale = generate(sys.argv[1] if len(sys.argv) > 1 else '/repo/src')
     print(text)
+    for k, w in stale.items():
+        print(f'-- NOT RE-EXTRACTED {k}: {w}', file=sys.stderr)
